@@ -4,7 +4,7 @@ from harness.canon import hx, tx, unhx, untx, exc_kind
 from harness.props.c07 import pre_build
 from bip_utils import Monero, MoneroCoins, XmrAddrDecoder, XmrIntegratedAddrDecoder
 
-LEAN_MODULES = ["BipVerif.Props.C16"]
+LEAN_MODULES = ["BipVerif.Props.C16", "BipVerif.Props.C04Group"]
 L = 2**252 + 27742317777372353535851937790883648493
 IDX = [0, 1, 2, 65536, 2**31, 2**32 - 1]
 
@@ -217,4 +217,108 @@ def relations(rng, tier, rpt):
             if found == (1 if tier == "quick" else 5):
                 break
     rpt.extra["impl_relation_checks"] = n
-    return bad[:6]
+    bad = bad[:6]
+    bad += _short_lived_wallets(rng, tier, rpt)
+    return bad[:9]
+
+
+# ---- the Monero scheme recomputed with libsodium (PyNaCl bindings) and pycryptodome's Keccak: no bip_utils code, no state
+_XMR_B58 = "123456789ABCDEFGHJKLMNPQRSTUVWXYZabcdefghijkmnopqrstuvwxyz"
+_XMR_BLOCK = [0, 2, 3, 5, 6, 7, 9, 10, 11]
+
+
+def _keccak256(b):
+    from Crypto.Hash import keccak
+    return keccak.new(data=b, digest_bits=256).digest()
+
+
+def _xmr_b58(data):
+    out = ""
+    for i in range(0, len(data), 8):
+        blk = data[i:i + 8]
+        v, s = int.from_bytes(blk, "big"), ""
+        while v:
+            v, r = divmod(v, 58)
+            s = _XMR_B58[r] + s
+        out += s.rjust(_XMR_BLOCK[len(blk)], "1")
+    return out
+
+
+def _sc_reduce(b32):
+    from nacl import bindings
+    return bindings.crypto_core_ed25519_scalar_reduce(b32 + bytes(32))
+
+
+def _ref_address(net_ver, priv_vkey, pub_skey, minor, major, payment_id=None):
+    """primary address (0, 0): net || B || a*G; sub-address: D = B + Hs("SubAddr\\0" || a || major || minor)*G, net || D || a*D;
+    integrated: net || B || A || payment id; all followed by the first 4 bytes of Keccak-256 and Monero-Base58 encoded"""
+    from nacl import bindings
+    if (minor, major) == (0, 0):
+        d, c = pub_skey, bindings.crypto_scalarmult_ed25519_base_noclamp(priv_vkey)
+    else:
+        m = _sc_reduce(_keccak256(b"SubAddr\x00" + priv_vkey + major.to_bytes(4, "little") + minor.to_bytes(4, "little")))
+        d = bindings.crypto_core_ed25519_add(pub_skey, bindings.crypto_scalarmult_ed25519_base_noclamp(m))
+        c = bindings.crypto_scalarmult_ed25519_noclamp(priv_vkey, d)
+    body = net_ver + d + c + (payment_id or b"")
+    return _xmr_b58(body + _keccak256(body)[:4])
+
+
+def _short_lived_wallets(rng, tier, rpt):
+    """An address depends on the wallet's keys, its network and the (account, index) pair / payment id — not on which wallets existed
+    before in the process. Many wallets are created one after the other (every constructor, every network, fresh keys each), each is asked
+    ONE kind of question with arguments that recur from wallet to wallet, and is dropped before the next one is made (a service deriving a
+    deposit address per user). Every answer is compared with the scheme recomputed from the seed / keys outside the library."""
+    import gc
+    from nacl import bindings
+    bad = []
+
+    def rep(what, inp, got, want):
+        bad.append({"property": "C16", "entry_point": what, "request_lines": [], "relation": what, "input": inp,
+                    "impl_output": got, "model_output": want, "no_failing_input": False})
+
+    nets = {}
+    for c in MoneroCoins:
+        conf = Monero.FromSeed(bytes(range(1, 33)), c).CoinConf()
+        nets[c] = (conf.AddrNetVersion(), conf.SubaddrNetVersion(), conf.IntegratedAddrNetVersion())
+    pairs = [(1, 0), (0, 1), (1, 2), (2**32 - 1, 2**31)]
+    pids = [bytes(8), bytes(range(8))]
+    coins = list(MoneroCoins)
+    n_wallets = 240 if tier == "quick" else 6000
+    n_obs = 0
+    reported = set()
+    for i in range(n_wallets):
+        coin = coins[rng.randrange(len(coins))]
+        seed = bytes(rng.randrange(256) for _ in range(32))
+        spend = _sc_reduce(seed)
+        view = _sc_reduce(_keccak256(spend))
+        pub_s = bindings.crypto_scalarmult_ed25519_base_noclamp(spend)
+        ctor = ("FromSeed", "FromPrivateSpendKey", "FromWatchOnly")[rng.randrange(3)]
+        w = Monero.FromSeed(seed, coin) if ctor == "FromSeed" else Monero.FromPrivateSpendKey(spend, coin) if ctor == "FromPrivateSpendKey" else Monero.FromWatchOnly(view, pub_s, coin)
+        # mostly sub-addresses only (the wallet is then held by nothing but this loop), some integrated-only and primary-only users
+        service = ("sub", "sub", "sub", "sub", "int", "prim")[i % 6]
+        asks = []
+        if service == "sub":
+            k = rng.randrange(len(pairs))
+            asks = [("Subaddress%s" % (pairs[j],), lambda j=j: w.Subaddress(*pairs[j]), _ref_address(nets[coin][1], view, pub_s, *pairs[j])) for j in (k, (k + 1) % len(pairs))]
+            if i % 12 == 1:      # the one-argument form: the account defaults to 0
+                asks.append(("Subaddress(1)", lambda: w.Subaddress(1), _ref_address(nets[coin][1], view, pub_s, 1, 0)))
+        elif service == "int":
+            pid = pids[rng.randrange(len(pids))]
+            asks = [("IntegratedAddress(%s)" % pid.hex(), lambda: w.IntegratedAddress(pid), _ref_address(nets[coin][2], view, pub_s, 0, 0, pid))]
+        else:
+            asks = [("PrimaryAddress()", lambda: w.PrimaryAddress(), _ref_address(nets[coin][0], view, pub_s, 0, 0)),
+                    ("Subaddress(0, 0)", lambda: w.Subaddress(0, 0), _ref_address(nets[coin][0], view, pub_s, 0, 0))]
+        for what, f, want in asks:
+            n_obs += 1
+            got = opt(f)
+            if got != want and (service, what) not in reported:
+                reported.add((service, what))
+                rep("Monero.%s of a wallet created after other wallets were used and dropped is not the scheme's address for this wallet's keys and network" % what,
+                    "wallet #%d of the loop: Monero.%s(%s, %s), asked only %s" % (i, ctor, seed.hex() if ctor != "FromWatchOnly" else "view=%s, spend_pub=%s" % (view.hex(), pub_s.hex()),
+                                                                                   coin.name, [a[0] for a in asks]), got, want)
+        w = asks = f = None          # the wallet is dropped here
+        if i % 40 == 39:
+            gc.collect()
+    rpt.extra["short_lived_wallets"] = n_wallets
+    rpt.extra["short_lived_wallet_observations"] = n_obs
+    return bad[:3]
